@@ -511,6 +511,12 @@ def run_case(case, dec):
                 j = 1 + dec.choose("torn-page", pages)
                 points.append((p, j * simdisk.PAGE))
                 ntorn += 1
+    # a pre-existing complete file that is still byte-identical after the
+    # writer died is the *old* file, not an incomplete new one
+    old_image = None
+    if case.get("preexisting") and len(disk.logs.get(name, [])) >= 2:
+        oi, ol = disk.logs[name][0]
+        old_image = simdisk.image_from(oi, ol, len(ol))
     violations = []
     stats = {"images": 0, "open_failed": 0, "warned": 0, "silent_complete": 0,
              "silent_then_raised": 0, "torn_images": ntorn,
@@ -521,6 +527,9 @@ def run_case(case, dec):
             break     # every further torn image would cost another time-out
         image = simdisk.image_from(initial, wlog, p, torn)
         is_final = (p == nops and torn is None)
+        if old_image is not None and image == old_image and not is_final:
+            stats["old_file_intact"] = stats.get("old_file_intact", 0) + 1
+            continue
         for ptype in ("file", "simple"):
             stats["images"] += 1
             status, info = examine(image, name, ptype, ref, consumer)
@@ -599,6 +608,10 @@ def run_case(case, dec):
                 continue
             stats["soft_deaths"] += 1
             image = disk3.files[name]
+            if case.get("preexisting") and len(disk3.logs.get(name, [])) == 1 \
+                    and old_image is not None and image == old_image:
+                stats["old_file_intact"] = stats.get("old_file_intact", 0) + 1
+                continue
             for ptype in ("file", "simple"):
                 stats["images"] += 1
                 status, info = examine(image, name, ptype, ref, consumer)
@@ -839,14 +852,17 @@ def static_checks(tier, seed):
     simdisk.install(disk)
     first = ptm.FileProcessTensor(mode="write", filename="f.hdf5",
                                   hilbert_space_dimension=2, dt=0.1)
-    holder = disk.open_files["f.hdf5"][0]
+    # (whatever name the first writer's open file goes by: an implementation
+    # may well write to a side file and rename it when it closes)
+    held = {k: v[0] for k, v in disk.open_files.items()}
     try:
         small(6).export("f.hdf5")
         err = None
     except Exception as e:  # noqa: BLE001
         err = e
-    if err is None or "f.hdf5" in disk.removed or \
-            disk.open_files.get("f.hdf5", (None,))[0] is not holder:
+    if err is None or any(k in disk.removed for k in held) or any(
+            disk.open_files.get(k, (None,))[0] is not v
+            for k, v in held.items()):
         viol("write_mode_overwrote_existing", "write/exists:open-by-writer",
              "mode 'write' replaced or unlinked a file another writer has "
              "open (error: %r)" % (err,))
